@@ -128,11 +128,13 @@ def to_sheets(form):
 
 
 def to_workbook_dict(form, with_headers=True):
-    """abstract form -> the documented dict input of pyxform.convert()."""
+    """abstract form -> the documented dict input of pyxform.convert().
+    Row dicts list their cells in header order, as every file back end produces them."""
     wb = {}
     names = []
     for name, (head, rows) in to_sheets(form).items():
-        wb[name] = [dict(r) for r in rows]
+        pos = {h: i for i, h in enumerate(head)}
+        wb[name] = [dict(sorted(r.items(), key=lambda kv: pos.get(kv[0], len(pos)))) for r in rows]
         if with_headers:
             wb[name + "_header"] = [{h: None for h in head}]
         names.append(form.get("sheet_names", {}).get(name, name))
